@@ -14,6 +14,7 @@ use std::time::Duration;
 pub fn meta(m: &mut PropMeta) {
     m.rule = "a pool of 31 file texts spread over nested and sibling modules (cross-file type references, alias chains, inheritance, deprecated uses, doc links that resolve only when another file is present, a redefinition across files, a containment cycle across files and two types outside it that lead into it, a dictionary key struct, and a definition named like a nested module of another file); EVERY subset of 2..4 files (quick) / 2..5 files (thorough) x ALL permutations of the subset, compiled in-process; every compilation is executed twice (fresh hash seeds) and must give identical diagnostics and ASTs; across the permutations of one subset: accepted-or-rejected is constant and, when accepted, every file's observed AST and the multiset of warnings (code, message, file, span) are constant. Process level: 3-file programs x every source/reference assignment x all 6 orders through the real binary with a capturing generator: exit status constant, warning multiset constant, and the decoded request content of every file constant (only the split and order change); every scenario repeated under hash seeds VERIF_HASH_SEED = 0..3 (quick) / 0..31 (thorough) via an LD_PRELOAD getrandom shim: stderr, stdout and the captured request must be byte-identical. non-trivial = the subset's files refer to each other; distinct = distinct (subset, order).";
     m.explanation = "exhaustive subsets x permutations x source/reference assignments; differential oracle (no expected value needed); controlled hash seeds";
+    m.thorough_cap_s = 1800.0;
     m.quick_bound = "all subsets of 2..4 of 31 files x all permutations; 4 hash seeds";
     m.thorough_bound = "all subsets of 2..5 of 31 files x all permutations; 32 hash seeds";
     m.assumptions.push("the hash-seed space cannot be enumerated: seeds are a controlled, replayable sample; the permutation / assignment part is exhaustive");
